@@ -37,7 +37,7 @@ ASSUMPTIONS = [
     "a non-PASS verdict (FAIL/TIMEOUT/ERROR) for an unreachable failure is not a C03 violation",
     "solvers (yices, z3) are trusted for unsat answers; every sat answer is replayed on the reference EVM (C04)",
 ]
-WATCHDOG_S = {"quick": 1500, "thorough": 7200}
+WATCHDOG_S = {"quick": 2400, "thorough": 10800}
 
 MANIFEST = {
     "technique": "end-to-end generated test contracts with planted ground truth (witness-first guard construction, independent z3 re-check, concrete replay on the reference EVM) driven through run_contract; verdict compared with ground truth",
